@@ -59,20 +59,28 @@ type UnixEntry struct {
 	T    Cell  `json:"t"`
 }
 type RCase struct {
-	Handler  Handler   `json:"handler"`
-	NoOpts   bool      `json:"noopts"`
-	Dates    []BStr    `json:"dates"`
-	DatesNil bool      `json:"dates_nil"`
-	RS       ResultSet `json:"rs"`
-	Entry    string    `json:"entry"`
-	Invalid  string    `json:"invalid,omitempty"` // nildb niltx emptyquery queryerr
+	// SharedMap: the same Go map object is passed as NullHandler by every case carrying this id (a caller
+	// reusing its options); the library must not change it
+	SharedMap string    `json:"shared_map,omitempty"`
+	Handler   Handler   `json:"handler"`
+	NoOpts    bool      `json:"noopts"`
+	Dates     []BStr    `json:"dates"`
+	DatesNil  bool      `json:"dates_nil"`
+	RS        ResultSet `json:"rs"`
+	Entry     string    `json:"entry"`
+	Invalid   string    `json:"invalid,omitempty"` // nildb niltx emptyquery queryerr
 	// oracles
 	Tp        []TpEntry   `json:"tp"`
 	Unix      []UnixEntry `json:"unix"`
 	UnixMilli []UnixEntry `json:"unixmilli"`
 	// observed
 	Out Out `json:"out"`
+
+	liveMap map[string]any
 }
+
+var sharedMaps = map[string]map[string]any{}
+
 type SQLCase struct {
 	Kind string `json:"kind"` // w q r
 	Tag  string `json:"tag"`
@@ -233,6 +241,14 @@ func (r *RCase) options() []dataframe.SQLReadOption {
 		for _, kv := range r.Handler.M {
 			m[string(kv.K)] = kv.V.ToAny()
 		}
+		if r.SharedMap != "" {
+			if prev, ok := sharedMaps[r.SharedMap]; ok {
+				m = prev
+			} else {
+				sharedMaps[r.SharedMap] = m
+			}
+		}
+		r.liveMap = m
 		o.NullHandler = m
 	case "other":
 		o.NullHandler = 42
@@ -381,6 +397,19 @@ func RunR(r *RCase) {
 		}
 		r.Out = okFrame(res)
 	}()
+	// the caller's handler map must come back exactly as it was passed
+	if r.liveMap != nil {
+		same := len(r.liveMap) == len(r.Handler.M)
+		for _, kv := range r.Handler.M {
+			v, ok := r.liveMap[string(kv.K)]
+			if !ok || fmt.Sprintf("%T|%v", v, v) != fmt.Sprintf("%T|%v", kv.V.ToAny(), kv.V.ToAny()) {
+				same = false
+			}
+		}
+		if !same {
+			r.Out = Out{Status: "panic", Msg: "the library modified the caller's NullHandler map (observed after the call); original result: " + r.Out.Status}
+		}
+	}
 }
 
 // ---------------- emission ----------------
